@@ -601,6 +601,65 @@ def run_unit(prior_set, sel, mode, N=2, G=2, M=None, cont=False, extra_trials=1,
                 tol=2e-5, max_paths=4000, time_budget_s=2400)
 
 
+def plot_unit(prior_set, sel=("J",)):
+    """Looking at a posterior must not change it: after a run, plot_pointwise_predictions() (matplotlib replaced by a
+    dummy, the point-wise median / quantile summaries -- not a subject of the property -- cut to zeros) must leave the
+    stored particles, distances and weights as they were, and the particles must still pass every per-particle check."""
+    def h(c):
+        from pygom.approximate_bayesian_computation import approximate_bayesian_computation as am
+        draws = Draws(c, 2, {0: 0, 1: 0})
+        st = stubs.StatsStub(c, closed_forms=False, support=True) if c.mode == "sym" else None
+        ctxs = [stubs.patched(*abc_patches(c, draws, st))]
+        if c.mode == "sym":
+            ctxs.append(stubs.integrator_stubs(c, eig="fixed", keyed="semantic"))
+        with ctxs[0]:
+            book = ctxs[1].__enter__() if len(ctxs) > 1 else None
+            try:
+                K = build(c, prior_set, sel, 2, None, draws)
+                abc = K.abc
+                wrap_prior_trials(draws, K)
+                havoc_cost(c, K)
+                tol0 = c.real("tol", lo=0, lo_strict=True)
+                abc.get_posterior_sample(2, tol0, G=1)
+                c.reachable("run completed")
+                snap = [[v for v in np.asarray(a, dtype=object).ravel()] for a in (abc.res, abc.dist, abc.w)]
+
+                class _Anything(object):
+                    def __getattr__(self_, k):
+                        return self_
+
+                    def __call__(self_, *a, **k):
+                        return self_
+
+                    def __iter__(self_):
+                        return iter(())
+                dummy = _Anything()
+                dummy.axes = []
+                mpl = _Anything()
+                mpl.pyplot = _Anything()
+                mpl.pyplot.subplots = lambda *a, **k: (dummy, dummy)
+                npx = am.np
+
+                def summary(a, *args, **kw):
+                    a = np.asarray(a, dtype=object)
+                    out = np.empty(a.shape[1:], dtype=object)
+                    out.fill(0)
+                    return out
+                with stubs.patched((am, "matplotlib", mpl), (npx, "median", summary), (npx, "quantile", summary)):
+                    saved_cost = K.obj.cost
+                    abc.plot_pointwise_predictions()
+                now = [[v for v in np.asarray(a, dtype=object).ravel()] for a in (abc.res, abc.dist, abc.w)]
+                for nm, a0, a1 in zip(("particles", "distances", "weights"), snap, now):
+                    c.prove(len(a0) == len(a1) and all_close(a1, a0, c), "the stored %s are unchanged by plot_pointwise_predictions()" % nm)
+                for i in range(2):
+                    c.prove(in_support(c, K, list(abc.res[i])), "particle %d still lies in the support of every prior after plotting" % i)
+            finally:
+                if book is not None:
+                    ctxs[1].__exit__(None, None, None)
+    return Unit("C17.plot_leaves_posterior[%s,obs=%s]" % (prior_set, "+".join(sel)), h,
+                bounds={"priors": [list(map(str, s_)) for s_ in PRIOR_SETS[prior_set]], "N": 2, "generations": 1}, tol=2e-5, max_paths=300)
+
+
 def guard_unit():
     """continue_posterior_sample refuses a tolerance above the previous final tolerance, a different N, and a first call"""
     def h(c):
@@ -655,7 +714,9 @@ class C17(Check):
                    "product is positive; the stored distance equals the real cost re-evaluated at the stored particle bound BY NAME (log-scale "
                    "transform, parameter/initial-value routing and the population constraint are therefore checked independently of par_order) "
                    "and is strictly below the tolerance of the generation that produced it; the weight equals prior density / sum_j kernel_j "
-                   "w_j and is positive; quantile-scheduled tolerances never increase; continued runs are refused above the previous tolerance.")
+                   "w_j and is positive; quantile-scheduled tolerances never increase; continued runs are refused above the previous tolerance.  "
+                   "Looking at a posterior (plot_pointwise_predictions) leaves particles, distances and weights unchanged; a labelled float probe: a NaN "
+                   "cost is never accepted.")
     stubs = ["numpy global RNG (prior samplers) -> named draws with the sampler's range contract",
              "rmvnorm -> arbitrary real vector; dmvnorm -> arbitrary positive values; np.random.choice -> arbitrary index",
              "scipy.stats densities: uniform in closed form, gamma/normal uninterpreted with their support (pdf > 0 iff inside)",
@@ -678,6 +739,7 @@ class C17(Check):
                       ("J_blog_g", ("R", "J"), 1, None), ("Rlog_S_g", ("J",), 0, "J")]
         for ps, sel, g, con in steps:
             us.append(step_unit(ps, sel, g, con, max_rej=1 if tier == "quick" else 2))
+        us.append(plot_unit("b_log_g_gamma"))
         # float probe (outside the real-arithmetic claim, labelled): the first in-support trial costs NaN
         us.append(step_unit("gb_unif", ("J",), 0, None, max_rej=1, nan_first=True))
         us.append(step_unit("gb_unif", ("J",), 1, None, max_rej=1, nan_first=True))
